@@ -387,4 +387,5 @@ add("C27", "output globals set only when a directory is given", "nifty/cl/minimi
 add("C27", "dry run keeps the initial sample list", "nifty/cl/minimization/optimize_kl.py", "            sl = _single_value_sample_list(mean, comm(iglobal))\n            pop_sseq()\n            continue\n", "            pop_sseq()\n            continue\n", "R27.14")
 add("C01", "partial diagonal reshaped without the axis permutation", "nifty/cl/operators/diagonal_operator.py", "            if perm != tuple(range(len(perm))):\n                self._ldiag = np.transpose(self._ldiag, perm)\n", "", "R01.9")
 add("C02", "mean-removing wrapper uses one formula for both modes", "nifty/cl/operators/convolution_operators.py", "        if mode == self.TIMES:\n            mean = x.s_mean()\n            return mean + self._op.apply(x - mean, mode)\n", "        mean = x.s_mean()\n        return mean + self._op.apply(x - mean, mode)\n", "R02.14")
+add("C22", "communicator passed in the mirror_samples slot", "nifty/cl/minimization/energy_adapter.py", "                                            n_samples, self._mirror_samples,\n                                            comm=self._comm, nanisinf=self._nanisinf)", "                                            n_samples, self._comm)", "R22.10")
 VARIANTS = V
